@@ -327,6 +327,16 @@ class GenElem(Elem):
         args = [self.expr(z) for z in e.args]
         kw = {k.arg: self.expr(k.value) for k in e.keywords}
 
+        if d in ("np.any", "numpy.any", "np.all", "numpy.all", "any", "all") and len(args) == 1 and not kw:
+            v = args[0]
+            if isinstance(v, Empty):
+                return short == "all"  # any() of nothing is False, all() of nothing is True
+            vals = list(v.items) if isinstance(v, KTable) else [v]
+            vals = [bool(x) if isinstance(x, (bool, sp.logic.boolalg.BooleanAtom)) else x for x in vals]
+            if vals and all(isinstance(x, bool) for x in vals):
+                return any(vals) if short == "any" else all(vals)
+            self.err(f"`{ast.unparse(e)[:60]}` on values that are not constant here", e)
+
         def lift(fn, *vals):
             """apply a sympy function pointwise over tables / tainted values"""
             if any(isinstance(v, Empty) for v in vals):
